@@ -3,6 +3,9 @@ EXTENDS Span
 MC_Store1 == <<1>>
 MC_Kind1 == <<"new">>
 MC_None == {}
+MC_Forms == {"value", "ref", "option", "box", "arc", "dyn", "ambient"}
+
+ASSUME PrintT(<<"FORMS", ToJson(CtxForms)>>)
 MC_IncAll == {"both", "trace", "span"}
 MC_IncBoth == {"both"}
 MC_IncPartial == {"trace", "span"}
